@@ -1,7 +1,8 @@
 #!/usr/bin/env python3
 """usage: try_mutant.py <repo-relative file> <old> <new> <PROP> [<PROP>...]
 Applies a textual mutation to /repo, runs the checks, reverts (git checkout)."""
-import sys, subprocess
+import sys, subprocess, os
+os.environ["PYVC_EVIDENCE_DIR"] = "/tmp/pyvc_mutant_evidence"
 f, old, new, props = sys.argv[1], sys.argv[2], sys.argv[3], sys.argv[4:]
 p = "/repo/" + f
 s = open(p).read()
